@@ -100,3 +100,9 @@ Print Assumptions C07_refuted_D71.
 Theorem C07_model_implies_spec : forall cfg c, all_off cfg -> gcase_wf c -> gcase_model_ok cfg c = true -> gcase_spec_ok c = true.
 Proof. exact gcase_model_implies_spec. Qed.
 Print Assumptions C07_model_implies_spec.
+
+(* the same for a scenario with several functions, each judged on its own occurrences *)
+Theorem C07_model_implies_spec_multi : forall cfg (m : mcase), all_off cfg -> Forall gcase_wf m ->
+  mcase_model_ok cfg m = true -> mcase_spec_ok m = true.
+Proof. exact mcase_model_implies_spec. Qed.
+Print Assumptions C07_model_implies_spec_multi.
